@@ -382,4 +382,148 @@ theorem C07_gen_clear (W : World V) (C : MCls) (s : MState V) (hw : WorldOk W C)
         cases f.immutable <;> cases (f.required && !C.opts.ignoreRequired) <;> rfl
     · simp [encOut, encExc]
 
+/-! ### `setdefault`, `update`: the dispatch around `__setitem__`
+
+`__setitem__` itself (two threaded objects: the instance and the context it makes) is not translated; called on the
+threaded instance it is the world's method, assumed to answer the model's `setitem`.  What is tied here is everything
+around it: which lookups decide, what is returned, where the loop of `update` stops. -/
+
+/-- what a method of the instance leaves, with every error an exception object -/
+def encOutM (fs : OVal V) (C : MCls) (r : MState V × MRes V) : OVal V × Outcome V :=
+  match r.2 with
+  | .ok none => (encSelf fs C r.1, .ret .none)
+  | .ok (some v) => (encSelf fs C r.1, .ret (.val v))
+  | .err e => (encSelf fs C r.1, .raise (encExc e))
+
+structure SetWorld (W : World V) (Wm : Utv.C07.World V) (fs : OVal V) (C : MCls) : Prop extends WorldOk W C where
+  setitem : ∀ (s : MState V) (k : String) (v : V),
+    W.method "__setitem__" (encSelf fs C s) [.str k, .val v] = .ok (encOutM fs C (Utv.C07.setitem false C Wm s k v))
+
+theorem dictItem_enc (k : String) (m : MMap V) :
+    dictItem (encMap m) (.str k) = match Utv.C07.Map.get m k with
+      | some v => .ok (.val v)
+      | none => .error .keyError := by
+  simp only [encMap, dictItem, lookup_enc, bind, Except.bind, pure, Except.pure]
+  cases Utv.C07.Map.get m k <;> rfl
+
+/-- `schema[key]` (`Schema.__getitem__`) is the model's `getitem` -/
+theorem C07_gen_getitem (W : World V) (fs : OVal V) (C : MCls) (s : MState V) (k : String) (hw : WorldOk W C) :
+    Schema.getitem_ W (encSelf fs C s) (.str k) = match Utv.C07.getitem C s k with
+      | some v => .ok (.val v)
+      | none => .error .keyError := by
+  gen_obligation "C07_gen_getitem: the regenerated code (Utv.Gen) is no longer equal to the hand model here" by
+    unfold Schema.getitem_
+    simp only [gs_parser, ga_getField, hw.getField, gs_items, bind, Except.bind, pure, Except.pure, Utv.C07.getitem]
+    cases Utv.C07.getField C k with
+    | none => simp [encOptField, dictItem_enc]
+    | some f => simp [encOptField, truthy_field, ga_fname, dictItem_enc]
+
+/-- `Schema.setdefault` around `__setitem__` is the model's `setdefault` -/
+theorem C07_gen_setdefault (W : World V) (Wm : Utv.C07.World V) (fs : OVal V) (C : MCls) (s : MState V) (k : String) (v : V)
+    (hw : SetWorld W Wm fs C) :
+    Schema.setdefault W (encSelf fs C s) (.str k) (.val v)
+      = .ok (encOutM fs C (Utv.C07.setdefault false C Wm s k v)) := by
+  gen_obligation "C07_gen_setdefault: the regenerated code (Utv.Gen) is no longer equal to the hand model here" by
+    unfold Schema.setdefault
+    simp only [C07_gen_contains W fs C _ k hw.toWorldOk, C07_gen_getitem W fs C _ k hw.toWorldOk, hw.setitem, truthy_bool,
+      bind, Except.bind, pure, Except.pure, Utv.C07.setdefault, Bool.false_eq_true, if_false]
+    cases hc : Utv.C07.contains C s k
+    · simp only [Bool.false_eq_true, if_false]
+      generalize Utv.C07.setitem false C Wm s k v = r
+      obtain ⟨s', res⟩ := r
+      cases res with
+      | err e => simp [encOutM]
+      | ok x =>
+        have hgi := C07_gen_getitem W fs C s' k hw.toWorldOk
+        cases hg : Utv.C07.getitem C s' k <;> cases x <;> rw [hg] at hgi <;>
+          simp [encOutM, hg, hgi, tryCatch, tryCatchThe, MonadExceptOf.tryCatch, Except.tryCatch, Exc.isA] <;> rfl
+    · have hsome : (Utv.C07.getitem C s k).isSome = true := by
+        unfold Utv.C07.contains at hc
+        unfold Utv.C07.getitem
+        cases hgf : Utv.C07.getField C k <;> simpa [Utv.C07.Map.has, hgf] using hc
+      cases hg : Utv.C07.getitem C s k with
+      | none => simp [hg] at hsome
+      | some x => simp [encOutM]
+
+def encKv (p : String × V) : OVal V := .seq .tuple [.str p.1, .val p.2]
+
+theorem items_enc (m : MMap V) : dictItems (encMap m) = .ok (.seq .list (m.map encKv)) := by
+  simp [encMap, encKvs, dictItems, pure, Except.pure, encKv, Function.comp_def]
+
+theorem forIn_setitems (g : OVal V → Option (OVal V × Outcome V) × OVal V → M V (ForInStep (Option (OVal V × Outcome V) × OVal V)))
+    (Wm : Utv.C07.World V) (fs : OVal V) (C : MCls) :
+    ∀ (kvs : List (String × V)) (s : MState V),
+      (∀ (p : String × V) (s : MState V), g (encKv p) (none, encSelf fs C s) = .ok (
+        match Utv.C07.setitem false C Wm s p.1 p.2 with
+        | (s', .ok _) => .yield (none, encSelf fs C s')
+        | (s', .err e) => .done (some (encSelf fs C s', .raise (encExc e)), encSelf fs C s'))) →
+      forIn (kvs.map encKv) (none, encSelf fs C s) g = .ok (
+        match Utv.C07.setitems false C Wm s kvs with
+        | (s', .ok _) => (none, encSelf fs C s')
+        | (s', .err e) => (some (encSelf fs C s', .raise (encExc e)), encSelf fs C s')) := by
+  intro kvs
+  induction kvs with
+  | nil => intro s _; rfl
+  | cons p kvs ih =>
+    intro s hg
+    obtain ⟨k, v⟩ := p
+    simp only [List.map_cons, List.forIn_cons, hg (k, v) s, Utv.C07.setitems]
+    cases hr : Utv.C07.setitem false C Wm s k v with
+    | mk s' res =>
+      cases res with
+      | err e => rfl
+      | ok x =>
+        simp only [bind, Except.bind]
+        exact ih s' hg
+
+theorem setitems_ok (Wm : Utv.C07.World V) (C : MCls) :
+    ∀ (kvs : List (String × V)) (s : MState V) (x : Option V), (Utv.C07.setitems false C Wm s kvs).2 = .ok x → x = none := by
+  intro kvs
+  induction kvs with
+  | nil => intro s x h; simpa [Utv.C07.setitems] using h.symm
+  | cons p kvs ih =>
+    intro s x h
+    obtain ⟨k, v⟩ := p
+    simp only [Utv.C07.setitems] at h
+    cases hr : Utv.C07.setitem false C Wm s k v with
+    | mk s' res =>
+      rw [hr] at h
+      cases res with
+      | err e => simp at h
+      | ok y => exact ih s' x h
+
+/-- `Schema.update(mapping)` around `__setitem__` is the model's `update`: the keys in order, stopping at the first that raises -/
+theorem C07_gen_update (W : World V) (Wm : Utv.C07.World V) (fs : OVal V) (C : MCls) (s : MState V) (kvs : List (String × V))
+    (hw : SetWorld W Wm fs C) :
+    Schema.update W (encSelf fs C s) (encMap kvs) (encMap [])
+      = .ok (encOutM fs C (Utv.C07.update false C Wm s kvs)) := by
+  gen_obligation "C07_gen_update: the regenerated code (Utv.Gen) is no longer equal to the hand model here" by
+    unfold Schema.update
+    have hdata : (do if (← truthy (encMap kvs)) then pure (← dictCopy (encMap kvs)) else pure (encMap ([] : MMap V)) : M V (OVal V))
+        = .ok (encMap kvs) := by
+      cases kvs <;> rfl
+    simp only [gs_options, ga_immutable, truthy_bool, bind, Except.bind, pure, Except.pure, Utv.C07.update] at hdata ⊢
+    cases hi : C.opts.immutable
+    · simp only [Bool.false_eq_true, if_false, hdata, items_enc, iter]
+      have un : ∀ p : String × V, unpack2 (encKv p) = .ok (.str p.1, .val p.2) := fun _ => rfl
+      simp only [pure, Except.pure]
+      rw [forIn_setitems _ Wm fs C kvs s]
+      · have hok := setitems_ok Wm C kvs s
+        generalize Utv.C07.setitems false C Wm s kvs = r at hok
+        obtain ⟨s', res⟩ := r
+        cases res with
+        | err e => rfl
+        | ok x =>
+          have := hok x rfl
+          subst this
+          rfl
+      · intro p s1
+        simp only [un, hw.setitem]
+        generalize Utv.C07.setitem false C Wm s1 p.1 p.2 = r
+        obtain ⟨s', res⟩ := r
+        cases res with
+        | err e => rfl
+        | ok x => cases x <;> rfl
+    · simp [encOutM, encExc]
+
 end Utv.GenEq.C07
